@@ -36,6 +36,7 @@ func main() {
 	timePkgs := flag.String("time", "", "comma separated package dirs whose time/math-rand imports are redirected")
 	syncPkgs := flag.String("sync", "", "comma separated package dirs whose sync, sync/atomic imports and go statements are redirected")
 	consts := flag.String("const", "", "comma separated dir:Name=value constant overrides (scaled models)")
+	goPkgs := flag.String("gostmt", "", "comma separated package dirs whose go statements (only) are redirected to verif/shim/vsched")
 	flag.Parse()
 	if *out == "" {
 		die("-out required")
@@ -52,7 +53,7 @@ func main() {
 		}
 		return m
 	}
-	tp, sp := set(*timePkgs), set(*syncPkgs)
+	tp, sp, gp := set(*timePkgs), set(*syncPkgs), set(*goPkgs)
 	type cov struct {
 		name, val string
 		done      bool
@@ -74,6 +75,9 @@ func main() {
 		all[p] = true
 	}
 	for p := range constOv {
+		all[p] = true
+	}
+	for p := range gp {
 		all[p] = true
 	}
 	for pkg := range all {
@@ -115,7 +119,7 @@ func main() {
 					changed = true
 				}
 			}
-			if sp[pkg] {
+			if sp[pkg] || gp[pkg] {
 				if rewriteGo(f) {
 					changed = true
 				}
